@@ -192,7 +192,9 @@ def critical_instants(rng, count):
         cdur = [rng.choice([0, 0, 1, 2]) for _ in range(n)]
         sc = _mk(rng, shape, dur=dur, out=outc, crit=crit, win=win, cdur=cdur,
                  pure=rng.random() < 0.2)
-        sc["harness"]["k"] = [rng.choice([0, 0, 1, 2]) for _ in range(n)]
+        sc["harness"]["k"] = [rng.choice([0, 0, 1, 2, 3, 4]) for _ in range(n)]
+        if nested and rng.random() < 0.4:
+            sc["harness"]["verbose"] = "keep"
         out.append(sc)
     return out
 
@@ -486,10 +488,13 @@ def scenarios(prop, count, seed):
         n = sc["cfg"]["n"]
         hrn["prep"] = rng.choice([0, 0, 0, 1, 2, 3, 4])
         hrn["emptymsg"] = rng.random() < 0.3
+        hrn["rterr"] = rng.random() < 0.3
         # now and then the caller cancels the whole run from outside
         if rng.random() < {"C11": 0.15, "C13": 0.08, "C05": 0.05}.get(prop, 0.03):
             sc["cfg"]["ucancel"] = rng.choice([0, 1, 1, 2, 3])
-        if prop in ("C06", "C03", "C14") and rng.random() < 0.2:
+        if prop in ("C06", "C03", "C14", "C05", "C11") and rng.random() < 0.25:
+            hrn["verbose"] = True
+        if hrn.get("verbose") == "keep":
             hrn["verbose"] = True
         if rng.random() < stall_p:
             hrn["stall"] = [rng.choice([0, 0, 1, 2, 3]) if sc["cfg"]["kind"][j] == "job" else 0
